@@ -383,6 +383,46 @@ def pf_mc(rng, tier):
                 bound=f'{runs} systems, {Np} particles', failures=fails[:4], samples=samples)
 
 
+@bounded('C13.PF.float32', functions=['pypose.module.pf:PF.forward', 'pypose.module.pf:PF.resample_particles', 'pypose.module.pf:PF.compute_cov'])
+def pf_float32(rng, tier):
+    """real code in float32 (the default dtype), 1e5 particles, also for states far from the origin relative to their spread: PF returns
+    (no exception), the covariance is symmetric positive semi-definite and - with an uninformative measurement and identity dynamics -
+    equals n P + Q up to sampling error (10 %)"""
+    import torch, pypose as pp
+    d = torch.float32
+    runs = 10 if tier == 'quick' else 60
+    Np = 100_000
+    fails = []; evals = 0; samples = []
+    class Hold(pp.module.NLS):
+        def state_transition(self, s, u, t=None): return s + u
+        def observation(self, s, u, t=None): return s
+    for t in range(runs):
+        n = rng.choice([1, 2, 3, 6]); offset = rng.choice([0.0, 1e2, 1e3, 5e3]); p = rng.choice([1.0, 1e-2, 1e-3])
+        x = torch.full((n,), offset, dtype=d); u = torch.zeros(n, dtype=d)
+        P = torch.eye(n, dtype=d) * p; Qn = torch.eye(n, dtype=d) * p * 1e-2; Rn = torch.eye(n, dtype=d) * p * 1e6
+        torch.manual_seed(rng.randrange(1 << 30))
+        sig = f'n={n},offset={offset:g},P={p:g}'
+        try:
+            xe, Pe = pp.module.PF(Hold(), particles=Np)(x, x.clone(), u, P, Qn, Rn)
+        except Exception as e:
+            fails.append(dict(clause='PF_returns_in_float32', signature=sig, error=f'{type(e).__name__}: {e}'[:160], particles=Np)); continue
+        evals += 1
+        expect = (n * P + Qn).double(); Pd = Pe.double()
+        ev = torch.linalg.eigvalsh((Pd + Pd.mT) / 2)
+        if float((Pd - Pd.mT).abs().max()) > 1e-6 * float(Pd.abs().max()) or float(ev.min()) < -1e-6 * float(ev.abs().max()):
+            fails.append(dict(clause='PF_covariance_symmetric_psd_float32', signature=sig, min_eig=float(ev.min()), max_eig=float(ev.max())))
+        elif float(torch.linalg.norm(Pd - expect) / torch.linalg.norm(expect)) > 0.1:
+            fails.append(dict(clause='PF_covariance_is_spread_plus_Q_float32', signature=sig, rel_err=float(torch.linalg.norm(Pd - expect) / torch.linalg.norm(expect))))
+        if float((xe.double() - offset).abs().max()) > 6 * (n * p) ** 0.5 / Np ** 0.5 + 1e-6 * (1 + offset) * 10:
+            fails.append(dict(clause='PF_mean_float32', signature=sig, err=float((xe.double() - offset).abs().max())))
+        if t < 2: samples.append(dict(n=n, offset=offset, P=p, min_eig=float(ev.min())))
+        if len(fails) > 6: break
+    uniq = {}
+    for f_ in fails: uniq.setdefault((f_['clause'], f_['signature']), f_)
+    return dict(evaluations=evals, distinct_nontrivial=evals, rule='n in {1,2,3,6}, state offsets {0,1e2,1e3,5e3}, P in {1,1e-2,1e-3}; one PF step each',
+                bound=f'{runs} steps, {Np} particles, float32', failures=list(uniq.values())[:6], samples=samples)
+
+
 @obligation('C13.canary.wrong_gain', functions=[f'{EKFM}:EKF.forward'], canary=True, timeout=300)
 def canary(env):
     ek = env.load(EKFM); T = env.T
